@@ -108,5 +108,10 @@ def extra(rng, tier):
             summary = l
     if summary is None or n < 200:
         fails.append({"line": "vharness_casts", "impl": str(summary), "required": "the enumeration must complete (>= 200 instantiations)"})
+    # most informative first: recorded cast mismatches / disagreeing instantiations, then protocol pairs, then "did not complete"
+    rank = lambda f: 0 if f["impl"].startswith(("MISMATCH", "FAIL cast")) else (2 if "must complete" in f["required"] or "process-died" in f["impl"] else 1)
+    for f in fails:
+        f["rank"] = rank(f)
+    fails.sort(key=rank)
     return {"nontrivial": n, "evaluations": n, "failures": fails, "hist": {"instantiations": n, "fast_path_instantiations": fast},
             "notes": [summary or "no summary"]}
